@@ -538,7 +538,13 @@ func applyEdit(es []entry, edit string, target, arg int) []entry {
 			return nil
 		}
 		return editJSON(i, func(m map[string]any) bool {
-			for _, q := range []string{"primary", "secondary"} {
+			// arg picks which queue is tried first, so both the primary and the
+			// secondary queue get edited
+			queues := []string{"primary", "secondary"}
+			if (arg/2)%2 == 1 {
+				queues = []string{"secondary", "primary"}
+			}
+			for _, q := range queues {
 				evs, _ := m[q].([]any)
 				if len(evs) == 0 {
 					continue
